@@ -906,7 +906,7 @@ class Node:
 
         See also :ref:`iteration-callbacks`.
         """
-        new_tree = self._tree.__class__()
+        new_tree = self._tree._new_like()
         if add_self:
             root = new_tree.add(self)
         else:
